@@ -308,3 +308,51 @@ def oracle_fault(h):
         if len(vals) != 1 or None in vals:
             fails.append(("C08", "the peer stopped replicating after the fault case: a fresh entity/value did not reach every peer", {"case": h.header.get("case")}))
     return fails
+
+
+# ------------------------------------------------------------------ C16: skinned meshes
+
+def skin_cases(h):
+    """for every drained SkinnedMesh phase: (instance, driver line, oracle failures)"""
+    binds = {b["h"]: b["uuid"] for b in h.events if b["ev"] == "bind"}
+    out, fails = [], []
+    phases = [(i, e) for i, e in enumerate(h.events) if e["ev"] == "phase" and e["ty"] == "Skinned"]
+    for k, (idx, ph) in enumerate(phases):
+        end = phases[k + 1][0] if k + 1 < len(phases) else len(h.events)
+        drains = [e for e in h.events[idx:end] if e["ev"] == "drain"]
+        if not drains:
+            continue
+        if not drains[-1]["quiescent"]:
+            fails.append(("C16", "traffic caused by a SkinnedMesh update did not stop", {"phase": ph}))
+            continue
+        uuid = binds.get(ph["h"])
+        want = [binds.get(j) for j in ph["joints"]]
+        w = ph["writer"]
+        peers = [p for p in range(h.nclients + 1 + sum(1 for e in h.events[:end] if e["ev"] == "late_join"))]
+        wst = last_state(h, end, w)
+        went = ent_of(wst, uuid) if wst else None
+        if not went or not went.get("skinned"):
+            continue
+        ids = {}
+        def uid(u):
+            return ids.setdefault(u, len(ids) + 1)
+        for p in peers:
+            st = last_state(h, end, p)
+            if st is None:
+                continue
+            e = ent_of(st, uuid)
+            if e is None or not e.get("skinned"):
+                fails.append(("C16", "peer %d has no SkinnedMesh after the drain" % p, {"phase": ph}))
+                continue
+            if e["skinned"]["joints"] != want:
+                fails.append(("C16", "peer %d: joints differ from the writer's list (number, order or identity)" % p,
+                              {"phase": ph, "got": len(e["skinned"]["joints"]), "want": len(want)}))
+            if e["skinned"]["poses"] != went["skinned"]["poses"]:
+                fails.append(("C16", "peer %d: inverse bind poses differ from the writer's" % p, {"phase": ph}))
+            if p != w:
+                e2u = " ".join("%d:%d" % (x[0], uid(x[1])) for x in wst["tracker"]["e2u"])
+                u2e = " ".join("%d:%d" % (uid(x[0]), x[1]) for x in st["tracker"]["u2e"])
+                jl = ".".join(map(str, went["skinned"]["joints_local"])) or "-"
+                exp = ".".join(map(str, e["skinned"]["joints_local"])) or "-"
+                out.append("skin %s/%d/%d E2U %s U2E %s JOINTS %s EXPECT %s" % (h.id, k, p, e2u.replace(" ", ",") or "-", u2e.replace(" ", ",") or "-", jl, exp))
+    return out, fails
